@@ -85,6 +85,9 @@ let run_init c =
 let gibad = ref 0
 let pcbad = ref 0
 let gisteps = ref 0
+let linbad = ref 0
+let lpcount = ref 0
+let lpdone : (int, hV obs option) Hashtbl.t = Hashtbl.create 8
 let check_gi = Array.length Sys.argv > 4 && Sys.argv.(4) = "gi"
 let () =
   let cases = Hashtbl.create 64 in
@@ -123,7 +126,7 @@ let () =
       (match String.split_on_char ' ' line with
        | [_; id; _] ->
          let c = Hashtbl.find cases id in
-         cs := Some c; dead := false; Hashtbl.reset opidx;
+         cs := Some c; dead := false; Hashtbl.reset opidx; Hashtbl.reset lpdone;
          (try s := Some (run_init c) with Failure m -> (dead := true; s := None; Printf.fprintf oc "%s\nMODEL-INIT-FAILED %s\n" line m));
          if not !dead then output_string oc (line ^ "\n")
        | _ -> ())
@@ -149,6 +152,36 @@ let () =
           if check_gi then incr gisteps;
           if check_gi && not (c_gi_full_b c.order st') then incr gibad;
           if check_gi && not (c_occ_ok_b c.order st') then (incr pcbad; if !pcbad <= 3 then Printf.printf "PCBAD(occ) case %s after step of %d: %s\n" c.id w (state st' (tids c)));
+          if check_gi then begin
+            (* linearization points: abs changes exactly at an LP, as the specification says, and every returning
+               call was linearized between its invocation and its return with the result it returns *)
+            let a = c_abs st and a' = c_abs st' in
+            let ret = List.filter_map (function EReturn r -> Some r | _ -> None) evs in
+            List.iter (function EInvoke _ -> Hashtbl.replace lpdone w None | _ -> ()) evs;
+            let bad msg = incr linbad; if !linbad <= 5 then Printf.printf "LINBAD(%s) case %s step of %d: %s\n" msg c.id w (state st' (tids c)) in
+            (match c_lp_step st (nat_of_int w) tg evs st' with
+             | None -> if a <> a' then bad "abs changed without LP"
+             | Some po ->
+               incr lpcount;
+               let (a2, x) = c_step_spec a po in
+               if a2 <> a' then bad "abs differs from spec at LP";
+               (match Hashtbl.find_opt lpdone w with Some (Some _) -> bad "second LP in one call" | _ -> ());
+               Hashtbl.replace lpdone w (Some x);
+               (match po, x, ret with
+                | OInsert _, ObsUnit, [RUnit] -> ()
+                | OUpdate _, ObsArg a0, [RArg a1] -> if a0 <> a1 then bad "Update argument differs from spec"
+                | ODelete _, ObsUnit, _ -> ()
+                | OSearch _, ObsFound a0, [RFound a1] -> if a0 <> a1 then bad "Search result differs from spec"
+                | OSearch _, ObsFound None, [] -> ()
+                | OSearch _, ObsFound (Some _), [] -> bad "early Search LP with a present key"
+                | _ -> bad "unexpected LP shape"));
+            (match ret with
+             | [RFound a1] -> (match Hashtbl.find_opt lpdone w with
+                               | Some (Some (ObsFound a0)) -> if a0 <> a1 then bad "Search returns other than linearized"
+                               | _ -> bad "Search returned without LP")
+             | [RUnit] | [RArg _] -> (match Hashtbl.find_opt lpdone w with Some (Some _) -> () | _ -> bad "call returned without LP")
+             | _ -> ())
+          end;
           if check_gi && not (c_all_pc_ok2_b st') then (incr pcbad; if !pcbad <= 3 then Printf.printf "PCBAD(adj) case %s after step of %d: %s\n" c.id w (state st' (tids c)));
           if check_gi && not (c_all_pc_ok_b c.order st') then (incr pcbad; if !pcbad <= 3 then Printf.printf "PCBAD case %s after step of %d: %s\n" c.id w (state st' (tids c)));
           if c.dumpsteps then Printf.fprintf oc "STEP %d acq=%s ev=%s en=%s | %s\n" w a ev en (state st' (tids c))
@@ -179,4 +212,4 @@ let () =
     | _ -> ()
   done with End_of_file -> ());
   close_out oc;
-  Printf.printf "model_ci_steps %d model_gi_failures %d model_pc_failures %d\n" !gisteps !gibad !pcbad
+  Printf.printf "model_ci_steps %d model_gi_failures %d model_pc_failures %d lin_failures %d lps %d\n" !gisteps !gibad !pcbad !linbad !lpcount
